@@ -10,7 +10,7 @@ mkdir -p "$S" && git -C /repo archive HEAD include tests | tar -x -C "$S"
 cd "$S" && git init -q . >/dev/null 2>&1
 if [ -f "$P" ]; then git apply $REV "$P" || { echo "patch failed"; rm -rf "$S"; exit 3; }
 else git -C /repo show "$P" | git apply $REV || { echo "patch failed"; rm -rf "$S"; exit 3; }; fi
-cd /verif && VERIF_REPO="$S" "$@"
+cd /verif && VERIF_REPO="$S" VERIF_OUT="$S/vout" "$@"
 rc=$?
 rm -rf "$S"
 exit $rc
